@@ -1156,8 +1156,41 @@ func (e *Engine) makeRType(t types.Type) Value {
 	return Iface{T: e.rtypePtr, V: RType{T: t}}
 }
 
-func (e *Engine) reflectString(t types.Type) string {
-	return types.TypeString(t, func(p *types.Package) string { return p.Name() })
+// reflectString renders a type the way reflect.Type.String does: packages by name, except inside the type
+// argument list of an instantiated generic type, where reflect prints full import paths.
+func (e *Engine) reflectString(t types.Type) string { return reflectStr(t, false) }
+
+func reflectStr(t types.Type, full bool) string {
+	qual := func(p *types.Package) string {
+		if full {
+			return p.Path()
+		}
+		return p.Name()
+	}
+	switch x := types.Unalias(t).(type) {
+	case *types.Named:
+		if x.TypeArgs().Len() == 0 {
+			break
+		}
+		s := x.Obj().Name()
+		if x.Obj().Pkg() != nil {
+			s = qual(x.Obj().Pkg()) + "." + s
+		}
+		args := make([]string, x.TypeArgs().Len())
+		for i := range args {
+			args[i] = reflectStr(x.TypeArgs().At(i), true)
+		}
+		return s + "[" + strings.Join(args, ",") + "]"
+	case *types.Pointer:
+		return "*" + reflectStr(x.Elem(), full)
+	case *types.Slice:
+		return "[]" + reflectStr(x.Elem(), full)
+	case *types.Array:
+		return fmt.Sprintf("[%d]%s", x.Len(), reflectStr(x.Elem(), full))
+	case *types.Map:
+		return "map[" + reflectStr(x.Key(), full) + "]" + reflectStr(x.Elem(), full)
+	}
+	return types.TypeString(t, qual)
 }
 
 func reflectKind(t types.Type) Value {
